@@ -22,6 +22,11 @@ m('rev-remb-255', 'receiver_estimated_maximum_bitrate.go', ('	if len(p.SSRCs) > 
 m('rev-twcc-delta-error', 'transport_layer_cc.go', ('		if err != nil {\n			return nil, err\n		}\n		copy(payload[recvDeltaOffset+i:], b)', '		if err != nil {\n			continue\n		}\n		copy(payload[recvDeltaOffset+i:], b)'), 'C08')
 m('rev-remb-string', 'receiver_estimated_maximum_bitrate.go', ('powers < len(bitUnits)-1 {', 'powers < len(bitUnits) {'), 'C17')
 m('rev-unmarshal-ffff', 'packet.go', ('bytesprocessed = (int(h.Length) + 1) * 4', 'bytesprocessed = int(h.Length+1) * 4'), 'C06 C09')
+m('rev-statusvector-reset', 'transport_layer_cc.go', ('	// do not append to the symbols of an earlier decode into the same chunk\n	r.SymbolList = nil\n', ''), 'C16')
+m('rev-nack-reset', 'transport_layer_nack.go', ('	p.Nacks = nil\n', ''), 'C18')
+m('rev-rr-reset', 'receiver_report.go', ('	// start afresh: r may hold the result of an earlier decode\n	r.Reports = nil\n', ''), 'C18 C01')
+m('rev-twcc-reset', 'transport_layer_cc.go', ('	t.PacketChunks = nil\n	t.RecvDeltas = nil\n', ''), 'C18')
+m('rev-bye-reason-reset', 'goodbye.go', ('	g.Reason = ""\n', ''), 'C18')
 m('rev-ccfb-oversize-guard', 'rfc8888.go', ('	if b.MarshalSize() > 4*(math.MaxUint16+1) {\n		return nil, errTooManyReports\n	}\n', ''), 'C09')
 # --- new single-edit defects ---
 m('twcc-run-not-clipped', 'transport_layer_cc.go', ('packetNumberToProcess := localMin(t.PacketStatusCount-processedPacketNum, packetStatus.RunLength)', 'packetNumberToProcess := packetStatus.RunLength'), 'C13 C04')
